@@ -73,11 +73,14 @@ def interleaved_walks(case, trie_a):
     for what in ("items", "nodes"):
         ga, gb = getattr(NodeIterator(trie_a), what)(), getattr(NodeIterator(tb), what)()
         ra, rb = [], []
-        for a, b in itertools.zip_longest(ga, gb):
-            if a is not None:
-                ra.append(a)
-            if b is not None:
-                rb.append(b)
+        try:
+            for a, b in itertools.zip_longest(ga, gb):
+                if a is not None:
+                    ra.append(a)
+                if b is not None:
+                    rb.append(b)
+        except Exception as e:
+            return f"{what}() of two alternately advanced walks over different tries raised {type(e).__name__} on complete databases"
         if what == "items":
             if [(bytes(k), bytes(v)) for k, v in ra] != sorted(m.items()):
                 return "items() of a trie walked alternately with a walk of another trie is not that trie's sorted contents"
